@@ -17,8 +17,8 @@ import xml.sax.handler
 from io import StringIO
 
 STREAMS = ['gen-events', 'parse-result', 'proxy-calls', 'handler-events', 'malformed-defs']
-THEOREMS = ['handler_gen', 'handler_gen_fresh', 'proxy_accepts_same_calls', 'known_reused_unless_replaced',
-            'generated_attribute_values_need_no_escaping', 'xml_cache_coherent']
+THEOREMS = ['handler_gen', 'handler_gen_fresh', 'proxy_accepts_same_calls', 'declared_method_count',
+            'known_reused_unless_replaced', 'generated_attribute_values_need_no_escaping', 'xml_cache_coherent']
 TRUSTED_BASE = [
     'expat / xml.sax: text <-> SAX events (the model starts at the event level; validated per case by parsing the '
     'generated text with a recording ContentHandler and comparing with the model\'s event list)',
@@ -40,8 +40,17 @@ RULE = ('one case = one document (path, exported objects, each interface built b
         'non-trivial = at least one exported member or a cache hit')
 
 BASIC = 'ybnqiuxtdsogh'
-STD_NAMES = ['org.freedesktop.DBus.Introspectable', 'org.freedesktop.DBus.Peer',
-             'org.freedesktop.DBus.ObjectManager']
+STD_FALLBACK = ['org.freedesktop.DBus.Introspectable', 'org.freedesktop.DBus.Peer',
+                'org.freedesktop.DBus.ObjectManager']
+STD_NAMES = list(STD_FALLBACK)       # refreshed from introspection._intro by run()/replay()
+
+
+def refresh_std():
+    """the names of the standard interfaces generateIntrospectionXML appends (read from the text `_intro`)"""
+    import re
+    from txdbus import introspection
+    names = re.findall(r'<interface\s+name="([^"]+)"', introspection._intro)
+    STD_NAMES[:] = names if names else STD_FALLBACK
 PROPS_DEF = {'name': 'org.freedesktop.DBus.Properties', 'ops': [
     ['m', 'Get', 'ss', 'v', 2, 1], ['m', 'Set', 'ssv', '', 3, 0], ['m', 'GetAll', 's', 'a{sv}', 1, 1],
     ['s', 'PropertiesChanged', 'sa{sv}as', 3]]}
@@ -530,9 +539,9 @@ def judge_doc(ctx, case, obs):
         if p == case['path']:
             for d in obj_ifdefs(case, ifs):
                 defs[d['name']] = final_members(d)
-    if len(rec) != len(declared) + 3:
-        ctx.violation('interface-count', 'number of recovered interfaces differs from declared + 3 standard',
-                      inp, observed=len(rec), expected=len(declared) + 3)
+    if len(rec) != len(declared) + len(STD_NAMES):
+        ctx.violation('interface-count', 'number of recovered interfaces differs from declared + standard ones',
+                      inp, observed=len(rec), expected=len(declared) + len(STD_NAMES))
         return
     for j, d in enumerate(declared):
         r = rec[j]
@@ -617,23 +626,20 @@ def judge_doc(ctx, case, obs):
                               'differently from the declaration', inp, observed=[f, m, n, g], expected=want)
 
 
-STD_METHODS = {'org.freedesktop.DBus.Introspectable': {'Introspect': ('', 's', 0)},
-               'org.freedesktop.DBus.Peer': {'Ping': ('', '', 0)},
-               'org.freedesktop.DBus.ObjectManager': {'GetManagedObjects': ('', 'a{oa{sa{sv}}}', 0)}}
-
-
 def expected_call(declared, f, m, n):
-    """from the declaration alone: the first interface (matching the filter) declaring the method decides"""
-    table = [(d.name, {k: (v.sigIn, v.sigOut, v.nargs) for k, v in d.methods.items()}) for d in declared]
-    table += [(k, v) for k, v in STD_METHODS.items()]
-    for iname, ms in table:
-        if f and f != iname:
+    """from the declaration alone: the first declared interface (matching the filter) that has the method
+    decides; a method none of them has is unknown unless a standard interface names it (then not judged)"""
+    from txdbus import introspection
+    for d in declared:
+        if f and f != d.name:
             continue
-        if m in ms:
-            si, so, cnt = ms[m]
-            if n != cnt:
+        v = d.methods.get(m)
+        if v is not None:
+            if n != v.nargs:
                 return 'T'
-            return ':'.join(['S', enc(iname), enc(si), enc(so)])
+            return ':'.join(['S', enc(d.name), enc(v.sigIn), enc(v.sigOut)])
+    if ('name="%s"' % m) in introspection._intro:
+        return None
     return 'A'
 
 
@@ -881,6 +887,7 @@ def fixed_cases():
 
 
 def run(ctx):
+    refresh_std()
     for name, data in ctx.corpus():
         c = data.get('input', data)
         if c.get('kind') == 'evs':
@@ -896,6 +903,7 @@ def run(ctx):
 
 
 def replay(ctx, data):
+    refresh_std()
     c = data.get('input', data)
     if c.get('kind') == 'evs':
         run_evs(ctx, [c])
